@@ -2,6 +2,7 @@ import MosnVerif.Drive.Util
 import MosnVerif.Model.WeightedCluster
 import MosnVerif.Model.LB
 import MosnVerif.Model.EdfConc
+import MosnVerif.Model.WrrHealth
 namespace MosnVerif.Drive.C06
 open MosnVerif.Drive MosnVerif.Model.WeightedCluster
 
@@ -116,11 +117,113 @@ def cwrr (wsTok rr0Tok preTok bTok kTok aTok : String) (impl : List String) : St
 
 end WRR
 
+section WRRHealth
+open MosnVerif.Model.LB MosnVerif.Model.EDF MosnVerif.Model.WrrHealth MosnVerif.Gen
+
+def digitOf (c : Char) : Option Nat := if c.isDigit then some (c.toNat - '0'.toNat) else none
+
+/-- `<picks digits>/<result digit|->` -/
+def parseLookup (tok : String) : Option (List Nat × Option Nat) :=
+  match tok.splitOn "/" with
+  | [p, r] =>
+    match p.toList.mapM digitOf with
+    | none => none
+    | some picks =>
+      if r == "-" then some (picks, none)
+      else match r.toList with
+        | [c] => (digitOf c).map (fun d => (picks, some d))
+        | _ => none
+  | _ => none
+
+inductive HEv | flip (i : Nat) (b : Bool) | looks (k : Nat)
+
+def parseHEv (tok : String) : Option HEv :=
+  let rest := (tok.drop 1).toString
+  if tok.startsWith "F" then
+    match rest.splitOn "." with
+    | [a, b] => match a.toNat?, b.toNat? with
+      | some i, some v => some (.flip i (v != 0))
+      | _, _ => none
+    | _ => none
+  else if tok.startsWith "L" then rest.toNat?.map .looks
+  else none
+
+structure HAcc where
+  health : List Bool
+  st : LBState
+  impl : List Rec := []        -- the implementation's lookups as records (reversed)
+  pos : Nat := 0
+  mismatch : Option (Nat × String × String) := none
+  bad : Bool := false
+
+def showRec (picks : List Nat) (r : Option Nat) : String :=
+  String.join (picks.map toString) ++ "/" ++ (match r with | some i => toString i | none => "-")
+
+/-- one lookup: the implementation's record under the current health pattern; the model (the C05 function `wrrChoose`
+through `stepEv`) is given the observed picks as tie hints and must make the same picks and return the same host. -/
+def hLook (ws : List Nat) (a : HAcc) (picks : List Nat) (res : Option Nat) : HAcc :=
+  let rc : Rec := { health := a.health, picks := picks, result := res }
+  match stepEv ws a.health a.st (.look (picks.map some)) with
+  | ((_, st'), some m) =>
+    let ok := m.picks == picks && m.result == res
+    { a with st := st', impl := rc :: a.impl, pos := a.pos + 1,
+             mismatch := if ok || a.mismatch.isSome then a.mismatch
+                         else some (a.pos, showRec m.picks m.result, showRec picks res) }
+  | _ => { a with bad := true }
+
+def hWalk (ws : List Nat) : HAcc → List HEv → List (List Nat × Option Nat) → HAcc
+  | a, [], [] => a
+  | a, [], _ :: _ => { a with bad := true }
+  | a, .flip i b :: r, ls => hWalk ws { a with health := a.health.set i b } r ls
+  | a, .looks 0 :: r, ls => hWalk ws a r ls
+  | a, .looks (_ + 1) :: _, [] => { a with bad := true }
+  | a, .looks (k + 1) :: r, (p, res) :: ls => hWalk ws (hLook ws a p res) (.looks k :: r) ls
+termination_by _ evs ls => (evs.length + (evs.map (fun e => match e with | .looks k => k | _ => 0)).sum, ls.length)
+decreasing_by all_goals simp_wf; all_goals (first | (apply Prod.Lex.left; simp; omega) | (apply Prod.Lex.left; omega) | (apply Prod.Lex.right; simp))
+
+/-- `wrrh <w0,…> <build-time health, one 0/1 per host> <rr0> <warm-up picks|-> <F<i>.<0|1> | L<k> ; …> =>
+<hosts added by refresh, in order|-> <picks/result of every lookup|->`: the real weighted round-robin balancer built while
+some hosts fail their health check, then health flips through the real flags and lookups. Agreement: the hosts the real
+`refresh` added are the ones the regenerated `refresh` adds, and every lookup makes the model's picks and returns the
+model's host (observed picks as tie hints). Predicate (`specH`, independent of regenerated code): per-lookup contract and,
+over every window of consecutive lookups, the lag bound for all pairs of hosts healthy throughout the window + service
+of every such host within `serveWindow` lookups. -/
+def wrrh (wsTok hpTok rr0Tok preTok evTok : String) (impl : List String) : String :=
+  let ws? := (wsTok.splitOn ",").mapM String.toNat?
+  let pre? := if preTok == "-" then some [] else (preTok.splitOn ",").mapM String.toNat?
+  let hp? := hpTok.toList.mapM (fun c => if c == '1' then some true else if c == '0' then some false else none)
+  let evs? := if evTok == "-" then some [] else (evTok.splitOn ";").mapM parseHEv
+  match ws?, hp?, rr0Tok.toNat?, pre?, evs?, impl with
+  | some ws, some hp0, some rr0, some pre, some evs, [addTok, lookTok] =>
+    let adds? := if addTok == "-" then some [] else addTok.toList.mapM digitOf
+    let looks? := if lookTok == "-" then some [] else (lookTok.splitOn ",").mapM parseLookup
+    match adds?, looks? with
+    | some adds, some looks =>
+      if hp0.length != ws.length then "E E bad-case" else
+      let st0 := newStateH ws hp0 rr0 (pre.map some)
+      let a := hWalk ws { health := hp0, st := st0 } evs looks
+      if a.bad then "E E bad-case" else
+      let recs := a.impl.reverse
+      let spec := specH ws recs
+      let modelAdds := if EdfRefresh.skipSmall (ws.length : Int) || EdfRefresh.skipEqual "" (wsEqual ws) then []
+                       else addedHosts ws hp0
+      let v := if spec then "S" else "V"
+      let nW := (recs.filter (·.weighted)).length
+      if modelAdds != adds then s!"D {v} refresh-adds model={String.join (modelAdds.map toString)} impl={addTok}"
+      else match a.mismatch with
+        | none => s!"A {v} ok lookups={a.pos} weighted={nW} fallback={a.pos - nW}"
+        | some (p, m, x) => s!"D {v} first-mismatch@{p} model={m} impl={x}"
+    | _, _ => "E E bad-case"
+  | _, _, _, _, _, _ => "E E bad-case"
+
+end WRRHealth
+
 def run (caseToks impl : List String) : String :=
   match caseToks with
   | ["wc", vec, draw] => wc vec draw impl
   | ["wrr", ws, rr0, pre] => wrr ws rr0 pre impl
   | ["cwrr", ws, rr0, pre, b, k, a] => cwrr ws rr0 pre b k a impl
+  | ["wrrh", ws, hp, rr0, pre, evs] => wrrh ws hp rr0 pre evs impl
   | _ => "E E unknown-kind"
 
 end MosnVerif.Drive.C06
